@@ -19,6 +19,8 @@ pub struct Config {
     pub dom_gold: Vec<usize>,
     pub dom_silver: Vec<usize>,
     /// wider domains used only during the first turn from the root ("funnel": one free turn, then a tiny shuffle domain)
+    /// Some(order): the root is produced by these 32 real placements (diagram is then derived from it)
+    pub setup: Option<String>,
     pub first_gold: Option<Vec<usize>>,
     pub first_silver: Option<Vec<usize>>,
     /// None = explore until no new state appears
@@ -92,9 +94,19 @@ pub fn config_json(c: &Config) -> serde_json::Value {
 /// Transformation applied to a whole game for the lock-step symmetry runs (identity for plain E2).
 pub fn run_config(prop: &str, checks: u32, cfg: &Config, idx: u64) -> FamilyResult {
     let t0 = Instant::now();
-    let (board, _, mn) = board_from_diagram(&cfg.diagram).unwrap_or_else(|e| panic!("config {}: {}", cfg.name, e));
-    let family = format!("E2 {}", cfg.name);
-    let root = RootInfo { explorer: "E2", family: family.clone(), idx, board, gold: cfg.gold_to_move, move_number: mn, config: config_json(cfg) };
+    let (mut board, _, mut mn) = board_from_diagram(&cfg.diagram).unwrap_or_else(|e| panic!("config {}: {}", cfg.name, e));
+    let how = match &cfg.setup {
+        Some(o) => {
+            board = crate::families::board_of_setup(o);
+            mn = 2;
+            RootHow::Setup(o.clone())
+        }
+        // odd configurations start from a root parsed from text ("or since the position was parsed")
+        None if idx % 2 == 1 => RootHow::Parsed,
+        None => RootHow::Constructed,
+    };
+    let family = format!("E2 {}{}", cfg.name, match &how { RootHow::Parsed => " [root parsed with from_str]", RootHow::Setup(_) => " [root produced by 32 placements]", _ => "" });
+    let root = RootInfo { how, explorer: "E2", family: family.clone(), idx, board, gold: cfg.gold_to_move, move_number: mn, config: config_json(cfg) };
     let mut ctx = Ctx::new(checks, prop, &root);
     let mut complete = true;
     let mut note = String::new();
@@ -193,7 +205,7 @@ fn diagram(rows: [&str; 8]) -> String {
 }
 
 fn cfg(name: &str, rows: [&str; 8], gold: bool, dg: &str, ds: &str, max_turns: Option<usize>) -> Config {
-    Config { name: name.into(), diagram: diagram(rows), gold_to_move: gold, dom_gold: sqs(dg), dom_silver: sqs(ds), first_gold: None, first_silver: None, max_turns, max_states: if max_turns.is_some() { 3_000_000 } else { 600_000 } }
+    Config { name: name.into(), diagram: diagram(rows), gold_to_move: gold, dom_gold: sqs(dg), dom_silver: sqs(ds), setup: None, first_gold: None, first_silver: None, max_turns, max_states: if max_turns.is_some() { 3_000_000 } else { 600_000 } }
 }
 
 fn funnel(mut c: Config, fg: &str, fs: &str) -> Config {
@@ -412,6 +424,19 @@ pub fn configs(thorough: bool) -> Vec<Config> {
         "c4 c3 g7 g6",
         None,
     ));
+    // 11. repetition play right after a real setup phase (history starts with the entry written by the 32nd placement)
+    {
+        let mut c = cfg(
+            "after a real setup (Gold hdcemcdh/rrrrrrrr, Silver rrrrrrrr/hdcmecdh): H a2 <-> a3 and h a7 <-> a6 shuffle",
+            ["                 "; 8],
+            true,
+            "a2 a3",
+            "a7 a6",
+            None,
+        );
+        c.setup = Some("hdcemcdhrrrrrrrrrrrrrrrrhdcmecdh".to_string());
+        v.push(c);
+    }
     if thorough {
         v.push(cfg(
             "E d4, C e4 vs d d5 in the 2x3 window d4-e6 to 6 turns",
